@@ -180,9 +180,118 @@ class ObjectUses(Suite):
         return repr(case)
 
 
+class DataDirs(Suite):
+    """member configs that keep their results in different data directories (and, for contrast, in one): every
+    task of every member is stored where the standalone chain of that config stores it, and a value computed
+    through the MultiChain is found there by a standalone chain built afterwards.  Runtime check only."""
+    name = 'member_data_dirs'
+    model = ''
+
+    def gen(self, rng, tier):
+        out = []
+        for xs in ([1, 1], [1, 2], [2, 2, 2], [1, 2, 1]):
+            for dirs in ('one', 'per_config'):
+                out.append(dict(xs=xs, dirs=dirs))
+        return out
+
+    def run_impl(self, case):
+        from taskchain import Config, MultiChain
+        from .. import pipeline as pl
+        classes = [dict(K(0, 'Src', params=[P('x')]), name='src'), dict(K(1, 'Dst', meta_inputs=[{'cls': 0}]), name='dst')]
+        with pl.workspace(dict(classes=classes, files={})) as (d, mod):
+            def configs():
+                return [Config(Path('data' if case['dirs'] == 'one' else f'data{i}'), name=f'c{i}',
+                               data={'tasks': [f'{mod}.*'], 'x': x}) for i, x in enumerate(case['xs'])]
+            res = {}
+            mc = MultiChain(configs())
+            res['multi'] = {n: pl.observe_chain(ch, with_paths=True) for n, ch in mc.chains.items()}
+            res['multi_values'] = {n: {t: ch.tasks[t].value for t in ch.tasks} for n, ch in mc.chains.items()}
+            res['alone'], res['alone_has'], res['alone_values'] = {}, {}, {}
+            before = pl.runs_started()
+            for cfg in configs():
+                ch = cfg.chain()
+                res['alone'][cfg.name] = pl.observe_chain(ch, with_paths=True)
+                res['alone_has'][cfg.name] = {t: bool(ch.tasks[t].has_data) for t in ch.tasks}
+                res['alone_values'][cfg.name] = {t: ch.tasks[t].value for t in ch.tasks}
+            res['runs_alone'] = pl.runs_started() - before
+            return res
+
+    def oracle(self, case, obs):
+        if 'unexpected_exception' in obs:
+            return f'unexpected exception {obs["unexpected_exception"]}: {obs["text"]}'
+        for n, alone in obs['alone'].items():
+            m = obs['multi'].get(n)
+            if m is None or sorted(m['tasks']) != sorted(alone['tasks']):
+                return f'{case}: chain {n} of the MultiChain has tasks {sorted((m or {}).get("tasks", {}))}, standalone {sorted(alone["tasks"])}'
+            for t, o in alone['tasks'].items():
+                if m['tasks'][t]['key'] != o['key'] or m['tasks'][t].get('path') != o.get('path'):
+                    return (f'{case}: task {t} of chain {n} is stored at {m["tasks"][t].get("path")} in the MultiChain and at '
+                            f'{o.get("path")} in the standalone chain of the same config')
+                if not obs['alone_has'][n][t]:
+                    return (f'{case}: the value of {t} was requested through chain {n} of the MultiChain, but the standalone '
+                            f'chain of that config finds no stored result at {o.get("path")}')
+                if json.dumps(obs['multi_values'][n][t], sort_keys=True) != json.dumps(obs['alone_values'][n][t], sort_keys=True):
+                    return f'{case}: task {t} of chain {n} yields {obs["multi_values"][n][t]} in the MultiChain, {obs["alone_values"][n][t]} standalone'
+        if obs['runs_alone']:
+            return f'{case}: standalone chains built after the MultiChain computed everything ran {obs["runs_alone"]} task(s) again'
+        return None
+
+    def nontrivial(self, case, obs):
+        return case['dirs'] == 'per_config'
+
+    def key(self, case):
+        return repr(case)
+
+
+class ForceForms(Suite):
+    """MultiChain.force(tasks) with every form the signature admits (a name, a Task, a list, a tuple, a set, a
+    one-shot iterator, a generator): in every member chain exactly the named tasks and their dependants are
+    marked.  Runtime check only (the model's force takes a list)."""
+    name = 'force_argument_forms'
+    model = ''
+    FORMS = ('name', 'list', 'tuple', 'iterator', 'generator', 'dict_keys')
+
+    def gen(self, rng, tier):
+        return [dict(form=f, n=n, pick=p) for f in self.FORMS for n in (2, 3) for p in ('src', 'mid')]
+
+    def run_impl(self, case):
+        from taskchain import Config, MultiChain
+        from .. import pipeline as pl
+        classes = [dict(K(0, 'Src'), name='src'), dict(K(1, 'Mid', meta_inputs=[{'cls': 0}], params=[P('k')]), name='mid'),
+                   dict(K(2, 'Top', meta_inputs=[{'cls': 1}]), name='top'), dict(K(3, 'Side'), name='side')]
+        with pl.workspace(dict(classes=classes, files={})) as (d, mod):
+            mc = MultiChain([Config(Path('data'), name=f'c{i}', data={'tasks': [f'{mod}.*'], 'k': i})
+                             for i in range(case['n'])])
+            for ch in mc.chains.values():
+                for t in ch.tasks.values():
+                    _ = t.value
+            names = [case['pick']]
+            arg = {'name': names[0], 'list': names, 'tuple': tuple(names), 'iterator': iter(names),
+                   'generator': (n for n in names), 'dict_keys': dict.fromkeys(names).keys()}[case['form']]
+            mc.force(arg)
+            return {n: {t: bool(ch.tasks[t]._forced) for t in ch.tasks} for n, ch in mc.chains.items()}
+
+    def oracle(self, case, obs):
+        if 'unexpected_exception' in obs:
+            return f'unexpected exception {obs["unexpected_exception"]}: {obs["text"]}'
+        down = {'src': {'src', 'mid', 'top'}, 'mid': {'mid', 'top'}}[case['pick']]
+        for n, flags in obs.items():
+            got = {t for t, f in flags.items() if f}
+            if got != down:
+                return (f'MultiChain.force({case["form"]} of [{case["pick"]}]): in chain {n} the tasks {sorted(got)} are marked, '
+                        f'expected {sorted(down)}')
+        return None
+
+    def nontrivial(self, case, obs):
+        return True
+
+    def key(self, case):
+        return repr(case)
+
+
 class C13(Prop):
     pid = 'C13'
-    suites = [Multi(), ObjectUses()]
+    suites = [Multi(), ObjectUses(), DataDirs(), ForceForms()]
     assumptions = ['config names within one MultiChain are distinct (the constructor asserts it)']
 
 
